@@ -185,7 +185,10 @@ PROPS["C16"] = {
 
 PROPS["C19"] = {
     "pkg": "c19", "level": "exploration",
-    "rule": ("rapid draws 1-4 fresh series (unique prefix per case; some points sent with one leading dot), per series a timestamp sequence "
+    "rule": ("rapid draws 1-4 fresh series (unique prefix per case; some points sent with one leading dot; name shapes: plain / tagged / "
+             "metrics2.0 / 160-byte / one a prefix of another, or all series sharing a 320-byte prefix and differing in the last bytes, or the same "
+             "name with different tag values; in 2 of 6 cases a crowd of 300 or 3000 other names, one point each, is dispatched between the "
+             "first and the second half of every goroutine's points), per series a timestamp sequence "
              "(increasing / decreasing / with repeats / from {0,1,...,2^32-1}), and deals the points among 1-8 goroutines that dispatch "
              "concurrently into a real table with validate_order on and a capture route. Each Dispatch is an operation with call/return time "
              "and observed result (forwarded or not, identified by a unique value field). Oracle: per series the history must be linearizable "
